@@ -260,6 +260,10 @@ pub fn run_shard(def: &PropDef, ctx: &Ctx, only_case: Option<u64>) -> Acc {
             .filter(|(k, _)| k.starts_with("violations/"))
             .map(|(_, v)| *v)
             .sum();
+        if after_viol_count > before_viol_count && acc.held == before.0 {
+            // a case that ended with a violation (known or not) is conclusive
+            acc.count("cases_violated", 1);
+        }
         if (acc.held, acc.violations.len(), acc.inconclusive) == before
             && after_viol_count == before_viol_count
         {
@@ -354,7 +358,8 @@ pub fn conclude(
             v.signature
         ));
     }
-    let conclusive = acc.held + acc.violations.len() as u64;
+    let conclusive = acc.held
+        + (acc.violations.len() as u64).max(acc.counters.get("cases_violated").copied().unwrap_or(0));
     let min = (def.min_conclusive)(ctx.tier);
     let violated = !unknown.is_empty();
 
